@@ -4,7 +4,7 @@
 # prints their exit codes, removes the copy.
 patch="$(realpath "$1")"; shift
 S=$(mktemp -d /tmp/mutrepo-XXXXXX)
-git -C /repo archive HEAD | tar -x -C "$S"
+git -C /repo archive ${REPO_REV:-HEAD} | tar -x -C "$S"
 ( cd "$S" && git init -q . && git apply --whitespace=nowarn "$patch" ) || { echo "PATCH-FAILED $patch"; rm -rf "$S"; exit 3; }
 O=$(mktemp -d /tmp/mutout-XXXXXX)
 rc_all=0
